@@ -57,6 +57,20 @@ def entries(ctx):
     events = c05.QUICK_EVENTS if ctx.quick else list(c05.EVENTS)
     for h in c05.histories(events, 2):
         add("C05:" + "+".join(e for e, _ in h), B.to_yaml(c05.build_spec(h)), "plain")
+    # compile-only family outside the executing checks: the *input* rank is partitioned and the other index-math rank
+    # follows it (fractional steps and halos exercise the coordinate-expression printer)
+    for a, b in ((1, 1), (2, 1), (3, 1), (1, 2), (2, 3), (3, 2)):
+        for st in (["uniform_shape(4)"], ["uniform_shape(6)", "uniform_shape(2)"], ["nway_shape(2)"]):
+            n = len(st)
+            for lo in (None, ["W%d" % i for i in range(n, 0, -1)] + ["S", "W0"], ["S"] + ["W%d" % i for i in range(n, -1, -1)]):
+                m = {"partitioning": {"Z": {"W": list(st), "Q": ["follow(W)"]}}}
+                if lo:
+                    m["loop-order"] = {"Z": lo}
+                def term(c, v):
+                    return v if c == 1 else "%d * %s" % (c, v)
+                y = {"einsum": {"declaration": {"I": ["W"], "F": ["Q"], "Z": ["S"]},
+                                "expressions": ["Z[s] = I[%s + %s] * F[q]" % (term(a, "q"), term(b, "s"))]}, "mapping": m}
+                add("REV(%d,%d)/%s" % (a, b, "+".join(st)), y, "plain")
     for fname, y in yaml_files():
         if "architecture" in y and "bindings" in y:
             add("file:" + fname, y, "metrics")
